@@ -132,6 +132,80 @@ def _skeleton(fn):
     return out
 
 
+def _guards(fn):
+    """HARD part of the correspondence: the multiset of guard expressions of a function, independent of how
+    statements are arranged.  A guard is the test of an `if`/`elif`, a conditional expression, a `while` or an
+    `assert`.  Normalisation: locals that are assigned exactly once by a plain `name = expr` are inlined, the
+    remaining locals are alpha-renamed to `_`, integer/float factors of `_eps` become `K` (their VALUES are
+    regenerated separately), `K*_eps > a` is rewritten to `a < K*_eps`.  Tests that are a bare parameter name
+    (`twist`) carry no comparison and are recorded as a set, not counted."""
+    params = {a.arg for a in fn.args.args}
+    stores = {}
+    for n in ast.walk(fn):
+        if isinstance(n, ast.Name) and isinstance(n.ctx, ast.Store):
+            stores[n.id] = stores.get(n.id, 0) + 1
+    local = set(stores) - params
+    single = {}
+    for n in ast.walk(fn):
+        if isinstance(n, ast.Assign) and len(n.targets) == 1 and isinstance(n.targets[0], ast.Name):
+            nm = n.targets[0].id
+            if nm in local and stores[nm] == 1:
+                single[nm] = n.value
+    MIRROR = {ast.Lt: ast.Gt, ast.Gt: ast.Lt, ast.LtE: ast.GtE, ast.GtE: ast.LtE}
+
+    def is_keps(e):
+        return isinstance(e, ast.BinOp) and isinstance(e.op, ast.Mult) and isinstance(e.right, ast.Name) and e.right.id == '_eps'
+
+    class Norm(ast.NodeTransformer):
+        def __init__(self):
+            self.depth = 0
+
+        def visit_Name(self, n):
+            if n.id in single and self.depth < 6:
+                self.depth += 1
+                r = self.visit(ast.parse(ast.unparse(single[n.id]), mode='eval').body)
+                self.depth -= 1
+                return r
+            return ast.Name(id='_' if n.id in local else n.id, ctx=ast.Load())
+
+        def visit_BinOp(self, n):
+            self.generic_visit(n)
+            if is_keps(n) and isinstance(n.left, ast.Constant):
+                n.left = ast.Name(id='K', ctx=ast.Load())
+            return n
+
+        def visit_Compare(self, n):
+            self.generic_visit(n)
+            if len(n.ops) == 1 and is_keps(n.left) and type(n.ops[0]) in MIRROR:
+                n = ast.Compare(left=n.comparators[0], ops=[MIRROR[type(n.ops[0])]()], comparators=[n.left])
+            return n
+    tests, flags = [], set()
+    for n in ast.walk(fn):
+        if isinstance(n, (ast.If, ast.IfExp, ast.While, ast.Assert)):
+            t = n.test
+            if isinstance(t, ast.Name) and t.id in params:
+                flags.add(t.id)
+                continue
+            tests.append(ast.unparse(Norm().visit(ast.parse(ast.unparse(t), mode='eval').body)))
+    return sorted(tests), sorted(flags)
+
+
+def _soft(fn):
+    """SOFT part: statement skeleton, callee set, numeric constants, raised exception kinds.  A difference here with
+    identical guards is not a failure: it escalates the numeric correspondence to its thorough size and is noted."""
+    calls, consts, raises = set(), set(), []
+    doc = ast.get_docstring(fn)
+    for n in ast.walk(fn):
+        if isinstance(n, ast.Call):
+            f = n.func
+            calls.add(f.attr if isinstance(f, ast.Attribute) else (f.id if isinstance(f, ast.Name) else ast.unparse(f)))
+        elif isinstance(n, ast.Constant) and isinstance(n.value, (int, float)) and not isinstance(n.value, bool):
+            consts.add(repr(n.value))
+        elif isinstance(n, ast.Raise) and n.exc is not None:
+            raises.append(ast.unparse(n.exc.func) if isinstance(n.exc, ast.Call) else ast.unparse(n.exc))
+    return {'skeleton': _skeleton(fn), 'calls': sorted(calls), 'consts': sorted(consts), 'raises': sorted(raises)}
+
+
 def _defaults(fn):
     a = fn.args
     d = {}
@@ -177,12 +251,24 @@ def tconst(ctx):
         for nm in names:
             if nm not in fns:
                 raise TConstError(f"modelled function {nm} not found")
+    soft_diff = []
     for nm, fn in fns.items():
-        sk = _skeleton(fn)
-        if sk != EXPECTED_SKELETON[nm]:
-            diff = next((i for i, (a, b) in enumerate(zip(sk, EXPECTED_SKELETON[nm])) if a != b), min(len(sk), len(EXPECTED_SKELETON[nm])))
-            raise TConstError(f"branch skeleton of {nm} differs from the modelled one at position {diff}: "
-                              f"source has {sk[diff:diff + 2]}, model expects {EXPECTED_SKELETON[nm][diff:diff + 2]}")
+        tests, flags = _guards(fn)
+        etests, eflags = EXPECTED_GUARDS[nm]
+        if tests != etests or flags != eflags:
+            extra = [t for t in tests if tests.count(t) > etests.count(t)] + [f for f in flags if f not in eflags]
+            missing = [t for t in etests if etests.count(t) > tests.count(t)] + [f for f in eflags if f not in flags]
+            raise TConstError(f"the guards (branch conditions) of {nm} differ from the modelled ones: "
+                              f"not in the model: {sorted(set(extra))}; modelled but no longer in the source: {sorted(set(missing))}")
+        so = _soft(fn)
+        es = dict(EXPECTED_SOFT[nm], skeleton=EXPECTED_SKELETON[nm])
+        d = [k for k in ('skeleton', 'calls', 'consts', 'raises') if so[k] != es[k]]
+        if d:
+            soft_diff.append(f"{nm}: {'/'.join(d)}")
+    ctx.stats['tconst:restructured'] = soft_diff
+    if soft_diff:
+        ctx.notes.append("T-const: same guards, thresholds and comparison operators as the model, but statement structure / callees / "
+                         "constants differ in " + "; ".join(soft_diff) + " -> numeric correspondence escalated to its thorough size")
     K = {}
     for nm, (field, op, side) in SITES.items():
         cmps = _eps_compares(fns[nm])
@@ -979,6 +1065,6 @@ def run(ctx):
         return
     ctx.prove('theories/Props/C03.v')
     with ctx.timed('correspond'):
-        sym_num(ctx, g, MOD, ctx.n(40, 1500))
+        sym_num(ctx, g, MOD, 1500 if ctx.stats.get('tconst:restructured') else ctx.n(40, 1500))
     with ctx.timed('oracle'):
         oracle(ctx, K)
